@@ -31,6 +31,11 @@ def cases(tier):
                 add('wrong blinding %d of opening %d' % (k, j), False, witness_tamper={'op': 'blinding_delta', 'j': j, 'k': k})
             if n >= 2:
                 add('opening %d has value+1' % j, False, witness_tamper={'op': 'value_set', 'j': j, 'value': '1'}, values=['2'] * m)
+        # value 0 under the all-zero mask: that commitment is the identity element — still a valid witness (alone, at each position of an aggregate)
+        for j in range(m):
+            add('identity commitment at %d' % j, True, values=[('0' if jj == j else '1') for jj in range(m)], zero_blindings_at=[j])
+        if x >= 2:
+            add('blinding components 0 and %d are zero' % (x - 1), True, zero_blinding_components=[0, x - 1])
         if m >= 2:
             add('openings 0 and 1 swapped', False, witness_tamper={'op': 'swap_openings', 'i': 0, 'j': 1})
             add('one opening missing', False, witness_tamper={'op': 'drop_opening'})
